@@ -21,6 +21,9 @@ def script? (v : Val) : Option Script := do
   | .list [n, l, d, f, noms, u] =>
     pure { n := ← n.nat?, learning := ← l.bools?, doneAt := ← d.nats?, finishAt := ← f.nat?,
            noms := ← (← noms.list?).mapM Val.nats?, undoneAt := ← u.nats? }
+  | .list [n, l, d, f, noms, u, unit] =>
+    pure { n := ← n.nat?, learning := ← l.bools?, doneAt := ← d.nats?, finishAt := ← f.nat?,
+           noms := ← (← noms.list?).mapM Val.nats?, undoneAt := ← u.nats?, unit := ← unit.int? }
   | _ => none
 
 def op? (v : Val) : Option (Op Int) := do
